@@ -34,6 +34,9 @@ Definition all_on : deviations := {| d_webhook_dup := true; d_ctx_shadow_legacy 
 (* ---------- configuration and occurrences ---------- *)
 Record trigger := {
   t_func : N;                    (* the decorated function *)
+  t_dm : N;                      (* the incarnation of that function (a reload of its file makes a new one: new trigger
+                                    task / new DecoratorManager); decorators of one incarnation start and fail together *)
+  t_epochs : list N;             (* the epochs (periods between two reloads) during which this incarnation is declared *)
   t_kind : kind;
   t_key : N;                     (* event type / topic as subscribed / webhook id *)
   t_filter : option fexpr;
@@ -43,6 +46,7 @@ Record trigger := {
 Record occ := {
   o_kind : kind;
   o_key : N;                     (* event type / subscribed topic the message is handed over for / webhook id *)
+  o_epoch : N;                   (* the epoch in which it is handed over *)
   o_ctx : option N;              (* id of the occurrence's HA context (events only) *)
   o_attrs : kwargs;              (* mqtt: topic, payload, qos, retain of the message; webhook: decoded payload *)
   o_data : kwargs;               (* event data *)
@@ -144,7 +148,9 @@ Definition spec_base (o : occ) : kwargs :=
   | KWebhook => [(s_trigger_type, VStr s_webhook); (s_webhook_id, VStr (o_key o)); (s_payload, attr s_payload o)]
   end.
 
-Definition subscribed (tr : trigger) (o : occ) : bool := kind_eqb (t_kind tr) (o_kind o) && N.eqb (t_key tr) (o_key o).
+(* declared at that moment, for that kind and key *)
+Definition subscribed (tr : trigger) (o : occ) : bool :=
+  kind_eqb (t_kind tr) (o_kind o) && N.eqb (t_key tr) (o_key o) && existsb (N.eqb (o_epoch o)) (t_epochs tr).
 
 (* ---------- the system ---------- *)
 Record sys := {
@@ -237,7 +243,7 @@ Definition ctxv_eqb (a b : ctxv) : bool := N.eqb (c_id a) (c_id b) && option_eqb
 
 Inductive action :=
   | ABegin (kw : kwargs) (c : ctxv)                  (* the function body is entered with these kwargs, task context c *)
-  | AFire (key : N) (given data : kwargs) (c : ctxv) (* event.fire(key, **given) put (data, c) on the bus *)
+  | AFire (key : N) (given data : kwargs) (c : ctxv) (ep : N) (* event.fire(key, **given) put (data, c) on the bus in epoch ep *)
   | ASet (c : ctxv)                                  (* state.set(...): the new state carries c *)
   | ACall (c : ctxv)                                 (* service call: the call carries c *)
   | AInternal.                                       (* sleeping, computing *)
@@ -254,8 +260,8 @@ Fixpoint set_begun (rs : list run) (r : nat) : list run :=
 Definition emit (st : state) (e : emission) : state :=
   {| st_q := st_q st; st_occs := st_occs st; st_runs := st_runs st; st_acts := st_acts st ++ [e] |}.
 
-Definition fired_occ (key : N) (given : kwargs) (c : ctxv) : occ :=
-  {| o_kind := KEvent; o_key := key; o_ctx := Some (c_id c); o_attrs := []; o_data := fire_data given; o_opt := None |}.
+Definition fired_occ (key : N) (given : kwargs) (c : ctxv) (ep : N) : occ :=
+  {| o_kind := KEvent; o_key := key; o_epoch := ep; o_ctx := Some (c_id c); o_attrs := []; o_data := fire_data given; o_opt := None |}.
 
 Definition step_run (S : sys) (st : state) (r : nat) (a : action) : option state :=
   match nth_error (st_runs st) r with
@@ -266,14 +272,14 @@ Definition step_run (S : sys) (st : state) (r : nat) (a : action) : option state
         if negb (r_begun rn) && kw_eqb kw (r_kwargs rn) && ctxv_eqb c (r_ctx rn)
         then Some {| st_q := st_q st; st_occs := st_occs st; st_runs := set_begun (st_runs st) r; st_acts := st_acts st |}
         else None
-    | AFire key given data c =>
+    | AFire key given data c ep =>
         let ok_ctx := match fire_explicit given with
                       | Some x => N.eqb (c_id c) x
                       | None => ctxv_eqb c (r_ctx rn) end in
         if r_begun rn && kw_eqb data (fire_data given) && ok_ctx
         then Some (bus S (emit st {| em_run := r; em_explicit := match fire_explicit given with Some _ => true | None => false end;
                                      em_ctx := match fire_explicit given with Some _ => c | None => r_ctx rn end |})
-                       (fired_occ key given c))
+                       (fired_occ key given c ep))
         else None
     | ASet c | ACall c =>
         if r_begun rn && ctxv_eqb c (r_ctx rn)
@@ -335,28 +341,31 @@ Definition spec_fire_data (given : kwargs) : kwargs :=
 
 (* ---------- which decorators are live (D80) ----------
    decorator_abc.py DecoratorManager.start: decorators start in order; when one raises, the already started ones of
-   that function are stopped and the manager becomes INVALID.  webhook.async_register raises ValueError when the id is
-   taken.  [order] = the sequence of async_register attempts (decorator indices) as they happened. *)
-Fixpoint reg_sim (trigs : list trigger) (order : list nat) (registry : list (N * N)) (dead : list N) : list N :=
+   that incarnation are stopped and the manager becomes INVALID.  webhook.async_register raises ValueError when the id is
+   taken.  [order] = the webhook.async_register attempts (true, decorator index) and async_unregister calls
+   (false, a decorator with that webhook id) in the order they happened (set-up and reloads). *)
+Fixpoint reg_sim (trigs : list trigger) (order : list (bool * nat)) (registry : list (N * N)) (dead : list N) : list N :=
   match order with
   | [] => dead
-  | T :: rest =>
+  | (isreg, T) :: rest =>
     match nth_error trigs T with
     | None => reg_sim trigs rest registry dead
     | Some tr =>
-      if existsb (N.eqb (t_func tr)) dead then reg_sim trigs rest registry dead
-      else if existsb (fun kf => N.eqb (fst kf) (t_key tr)) registry
-      then reg_sim trigs rest (filter (fun kf => negb (N.eqb (snd kf) (t_func tr))) registry) (t_func tr :: dead)
-      else reg_sim trigs rest ((t_key tr, t_func tr) :: registry) dead
+      if isreg then
+        if existsb (N.eqb (t_dm tr)) dead then reg_sim trigs rest registry dead
+        else if existsb (fun kf => N.eqb (fst kf) (t_key tr)) registry
+        then reg_sim trigs rest registry (t_dm tr :: dead)      (* its started decorators are unregistered: own entries follow in [order] *)
+        else reg_sim trigs rest ((t_key tr, t_dm tr) :: registry) dead
+      else reg_sim trigs rest (filter (fun kf => negb (N.eqb (fst kf) (t_key tr))) registry) dead
     end
   end.
 
-Definition compute_live (cfg : deviations) (legacy : bool) (trigs : list trigger) (order : list nat) (T : nat) : bool :=
+Definition compute_live (cfg : deviations) (legacy : bool) (trigs : list trigger) (order : list (bool * nat)) (T : nat) : bool :=
   if legacy || negb (d_webhook_dup cfg) then true
   else match nth_error trigs T with
-       | Some tr => negb (existsb (N.eqb (t_func tr)) (reg_sim trigs order [] []))
+       | Some tr => negb (existsb (N.eqb (t_dm tr)) (reg_sim trigs order [] []))
        | None => true
        end.
 
-Definition mk_sys (cfg : deviations) (legacy : bool) (trigs : list trigger) (order : list nat) : sys :=
+Definition mk_sys (cfg : deviations) (legacy : bool) (trigs : list trigger) (order : list (bool * nat)) : sys :=
   {| sy_legacy := legacy; sy_cfg := cfg; sy_trigs := trigs; sy_live := compute_live cfg legacy trigs order |}.
